@@ -185,3 +185,21 @@ package server
 //@   precall github.com/vicanso/elton.Context.Next#0 [maxage-kept] status != cache.StatusFetching ==> maxAgeOf(c) == old(maxAgeOf(c))
 // C13: the server's compress profile, minimum length and filter are attached to the response
 //@   precall github.com/vicanso/elton.Context.Next#0 [response-set] c.has[box("_httpResp")] && typeis(c.kv[box("_httpResp")], "*cache.HTTPResponse") && unbox(c.kv[box("_httpResp")], "*cache.HTTPResponse") == httpResp && httpResp != nil
+
+// ---- the responder middleware (C04 Age header, C05 delivery, truthful label) -----------------
+
+//@ spec func ageOfCtx(c *elton.Context) int := ctxInt(c.has[box("_httpRespAge")], c.kv[box("_httpRespAge")])
+//@ func NewResponder$1(c *elton.Context) (err error)
+//@   requires [ctx] c != nil
+//@   modifies heap, $nexts, $enc, $hdr
+//@   ensures [once]   $nexts == old($nexts) + 1
+//@   ensures [label]  err == nil ==> hget($hdr[c.rh], "X-Status") == statusName(statusOf(c))
+//@   ensures [age]    err == nil && ageOfCtx(c) > 0 ==> hget($hdr[c.rh], "Age") == itoa(ageOfCtx(c))
+//@   ensures_local [delivered] err == nil ==> httpResp != nil && c.StatusCode == httpResp.StatusCode && c.BodyBuffer != nil
+
+//@ func NewResponder() (h elton.Handler)
+//@   nopanic
+//@ func NewCache(s *server) (h elton.Handler)
+//@   nopanic
+//@ func NewProxy(s *server) (h elton.Handler)
+//@   nopanic
